@@ -61,6 +61,57 @@ def no_swallowed_backend_errors(ctx, rule, scope_pred=None, what='backend'):
     return n_reach
 
 
+def local_listing_errors_propagate(ctx, rule):
+    """The file-system listing either reports every object under the prefix or raises.  A handler that absorbs an
+    OSError may cover only the opening of the listing root (a missing area is an empty listing), never the walk below
+    it; and the walk is not delegated to os.walk() without an `onerror` that raises (os.walk skips unreadable
+    directories silently by default - CPython documentation)."""
+    corpus = ctx.corpus
+    from .backends import backend_classes
+
+    funcs = []
+    for ci in backend_classes(corpus):
+        lf = ci.methods.get('list_files')
+        if lf is not None and any((dotted(c.func) or '').startswith('os.') or (dotted(c.func) or '').endswith('iterative_scandir') for c in calls_in(lf.node)):
+            funcs.append(lf)
+            funcs += [m for m in ci.methods.values() if m is not lf and any(isinstance(a, ast.Attribute) and a.attr == m.name for a in ast.walk(lf.node))]
+    fs = corpus.module('fs')
+    funcs += [f for f in fs.all_functions if f.name in ('iterative_scandir',) or any(isinstance(y, (ast.Yield, ast.YieldFrom)) for y in walk_local(f.node))]
+    ctx.floor(rule, 'file-system listing functions', len(funcs), 2)
+    n = 0
+    for f in funcs:
+        ctx.analysed(f)
+        for c in calls_in(f.node):
+            if (dotted(c.func) or '') in ('os.walk', 'walk', 'os.fwalk'):
+                n += 1
+                oe = kwarg(c, 'onerror')
+                ok = oe is not None and not (isinstance(oe, ast.Constant) and oe.value is None)
+                ctx.check(ok, rule, f'{func_label(f)}|walk-reports-errors', loc(f, c), f'{f.qual}: os.walk is given an onerror callback', f'{f.qual}: `{src(c, 60)}` has no onerror callback: a directory that cannot be listed (I/O error, permissions) is skipped silently, the listing is incomplete without anyone noticing - '
+                          'snapshots / chunks under it look absent (their chunks are then unreferenced and removed, or orphans are never cleaned)')
+        for t in walk_local(f.node):
+            if not isinstance(t, ast.Try):
+                continue
+            for h in t.handlers:
+                catches = set(handler_catches(h))
+                if handler_reraises(h) or not (not catches or catches & {'OSError', 'Exception', 'BaseException', 'IOError', 'EnvironmentError', 'PermissionError', 'FileNotFoundError', 'NotADirectoryError'}):
+                    continue
+                n += 1
+                narrow = catches and catches <= {'FileNotFoundError', 'NotADirectoryError'}
+                walks = [x for st in t.body for x in ast.walk(st) if isinstance(x, (ast.For, ast.AsyncFor, ast.While, ast.Yield, ast.YieldFrom, ast.With, ast.ListComp, ast.GeneratorExp, ast.SetComp, ast.DictComp))]
+                calls = [x for st in t.body for x in ast.walk(st) if isinstance(x, ast.Call)]
+                ok = not walks and len(calls) <= 1
+                ctx.check(
+                    ok,
+                    rule,
+                    f'{func_label(f)}|absorbed-oserror-covers-only-the-root',
+                    loc(f, h),
+                    f'{f.qual}: the handler that absorbs {", ".join(sorted(catches)) or "everything"} covers only the opening of the listing root',
+                    f'{f.qual}: `except {", ".join(sorted(catches))}` without re-raise encloses the walk over the listing (loops / yields in the try body): an I/O error in any sub-directory ends the listing early and silently - '
+                    'live objects look absent (clean / delete then remove chunks that are still referenced, or leave orphans)',
+                )
+    return n
+
+
 def _body_reaches_backend(corpus, f: FuncInfo, stmts) -> bool:
     methods = TRANSFER | MAINT | {'list_files'}
 
@@ -105,6 +156,42 @@ def gathers_propagate(ctx, rule, module_short='repository'):
                 else:
                     ctx.ok(rule, loc(f, c), f'gather propagates exceptions [{f.qual}]')
     ctx.count('gathers', n)
+    # asyncio.wait / concurrent.futures.wait hand back (done, pending) and never raise for a failed member: the failures
+    # live in the `done` futures until somebody asks for their result.  Dropping `done` drops the failures.
+    for f in m.all_functions:
+        for c in calls_in(f.node, local=True):
+            if dotted(c.func) in ('asyncio.wait', 'concurrent.futures.wait', 'futures.wait', 'wait') and c.args:
+                n += 1
+                st = enclosing_stmt(c)
+                done_name = None
+                if isinstance(st, ast.Assign) and len(st.targets) == 1 and isinstance(st.targets[0], ast.Tuple) and len(st.targets[0].elts) == 2 and isinstance(st.targets[0].elts[0], ast.Name):
+                    done_name = st.targets[0].elts[0].id
+                elif isinstance(st, ast.Assign) and len(st.targets) == 1 and isinstance(st.targets[0], ast.Name):
+                    done_name = st.targets[0].id
+                observed = False
+                if done_name and done_name != '_':
+                    for x in walk_local(f.node):
+                        if isinstance(x, (ast.For, ast.AsyncFor)) and any(isinstance(y, ast.Name) and y.id == done_name for y in ast.walk(x.iter)) and any(isinstance(y, ast.Await) or (isinstance(y, ast.Call) and isinstance(y.func, ast.Attribute) and y.func.attr in ('result', 'exception')) for y in ast.walk(x)):
+                            observed = True
+                        if isinstance(x, ast.Call) and dotted(x.func) in ('asyncio.gather', 'gather') and any(isinstance(y, ast.Name) and y.id == done_name for a_ in x.args for y in ast.walk(a_)):
+                            observed = True
+                # the waited collection itself may be kept whole and gathered later (then nothing is lost)
+                waited = c.args[0]
+                kept = False
+                if isinstance(waited, ast.Name):
+                    rebinds = [a_ for a_ in walk_local(f.node) if isinstance(a_, ast.Assign) and any(isinstance(y, ast.Name) and y.id == waited.id and isinstance(y.ctx, ast.Store) for t in a_.targets for y in ast.walk(t)) and any(c is y for y in ast.walk(a_.value))]
+                    shrinks = [x for x in walk_local(f.node) if isinstance(x, ast.Call) and isinstance(x.func, ast.Attribute) and isinstance(x.func.value, ast.Name) and x.func.value.id == waited.id and x.func.attr in ('discard', 'remove', 'pop', 'clear', 'difference_update')]
+                    later = any(isinstance(x, ast.Call) and dotted(x.func) in ('asyncio.gather', 'gather') and any(isinstance(y, ast.Name) and y.id == waited.id for a_ in x.args for y in ast.walk(a_)) for x in walk_local(f.node))
+                    kept = later and not rebinds and not shrinks
+                ctx.check(
+                    observed or kept,
+                    rule,
+                    f'{func_label(f)}|wait-observes-done',
+                    loc(f, c),
+                    f'{f.qual}: the futures that `{src(c, 50)}` reports as done have their results retrieved',
+                    f'{f.qual}: the completed futures returned by `{src(c, 50)}` are dropped (`{src(st, 70)}`): an exception raised by one of them (a failed download, a digest mismatch) is never '
+                    'retrieved - the command reports success although part of the work failed',
+                )
     return n
 
 
@@ -358,6 +445,72 @@ def values_fresh_in_iteration(ctx, rule, f, loop, use_stmt, names, what):
             f'{what}: `{nm}` is assigned only on some paths of the loop body, so the value computed for an EARLIER element can be used for the current one (stale value)',
             cfg.describe_path([x for x in (stale or []) if x.kind in ('stmt', 'true', 'false', 'test')][:8], f.module),
         )
+
+
+def leftover_from_finished_loop(ctx, rule, funcs, what):
+    """A local that is (re)assigned only inside a loop L, from L's current item, and is then read inside a *different*
+    loop M that runs after L has finished holds whatever the LAST iteration of L left behind: every item of M is
+    processed with the data of one (unrelated) item of L.  Decided with reaching definitions on the CFG."""
+    from ..astutil import ancestors, enclosing_stmt, is_within, walk_local
+    from ..cfg import reaching_defs
+    from .common import func_label, loc
+
+    n = 0
+    for f in funcs:
+        loops = [l for l in walk_local(f.node) if isinstance(l, (ast.For, ast.AsyncFor))]
+        if len(loops) < 2:
+            continue
+        seen = set()
+        for M in loops:
+            for u in walk_local(M):
+                if not (isinstance(u, ast.Name) and isinstance(u.ctx, ast.Load)) or u.id in seen:
+                    continue
+                if any(u is x for x in ast.walk(M.iter)):
+                    continue
+                # only names bound inside some other loop are candidates
+                binders = [st for st in walk_local(f.node) if isinstance(st, ast.Assign) and any(isinstance(t, ast.Name) and t.id == u.id for t in st.targets)]
+                if not binders:
+                    continue
+                outer = []
+                for st in binders:
+                    Ls = [a for a in ancestors(st) if isinstance(a, (ast.For, ast.AsyncFor)) and is_within(a, f.node)]
+                    Ls = [L for L in Ls if not is_within(u, L)]
+                    outer.append(Ls[0] if Ls else None)
+                if any(L is None for L in outer):
+                    continue
+                rd = reaching_defs(f.node, u)
+                a_ = f.node.args
+                if u.id in {x.arg for x in a_.posonlyargs + a_.args + a_.kwonlyargs}:
+                    continue
+                # 'entry' stands for "unbound" here (the earlier loop ran zero times): not a definition
+                rd = [d for d in (rd or []) if d != 'entry']
+                if not rd or not all(any(d is b for b in binders) for d in rd):
+                    continue
+                n += 1
+                bad = []
+                for d in rd:
+                    L = outer[[i for i, b in enumerate(binders) if b is d][0]]
+                    tnames = {x.id for x in ast.walk(L.target) if isinstance(x, ast.Name)}
+                    per_item = set(tnames)
+                    # locals of L's body computed from its item count as the item too
+                    for st in walk_local(L):
+                        if isinstance(st, ast.Assign) and any(isinstance(x, ast.Name) and x.id in per_item for x in ast.walk(st.value)):
+                            per_item |= {t.id for t in st.targets if isinstance(t, ast.Name)}
+                    reads_item = any(isinstance(x, ast.Name) and x.id in per_item for x in ast.walk(d.value))
+                    accum = any(isinstance(x, ast.Name) and x.id == u.id for x in ast.walk(d.value))
+                    if reads_item and not accum:
+                        bad.append((d, L))
+                seen.add(u.id)
+                ctx.check(
+                    not bad,
+                    rule,
+                    f'{func_label(f)}|no-leftover-of-finished-loop:{u.id}',
+                    loc(f, enclosing_stmt(u)),
+                    f'{what}: `{u.id}` read in the loop at line {M.lineno} is not a leftover of an earlier loop',
+                    f'{what}: `{u.id}` is assigned from the current item of the loop at line {bad[0][1].lineno if bad else 0} and read, after that loop has finished, for every item of the loop at line {M.lineno}: '
+                    'all items are processed with the data of the LAST item of the earlier loop (e.g. the chunk table of another snapshot)',
+                )
+    return n
 
 
 def file_digest_covers_stream(ctx, rule):
